@@ -6,7 +6,9 @@ What is regenerated from the current source:
                                `return`/`raise`, `range(...)`, `range(*sl.indices(n))`)
   * `_handle_negative_indices` the scalar tests `x < 0` of the np.where / .sum() lines and the wrap
                                expressions of the `+=` lines (row: `+ len(starts)`, column: `+ lengths[row]`)
-  * `_convert_from_2d`         the bound test `lengths[first] <= second` and the offset `starts[first] + second`
+  * `_convert_from_2d`         the bound test `lengths[first] <= second` and the offset `starts[first] + second`;
+                               the conversion of the two index vectors (`_index_array`, pinned whole) and their
+                               pairing by `np.broadcast_arrays` are pinned as text (-> gen_c2_pairs)
   * `_convert_from_1d`         the search test `starts <= ii` and the column expression `ii - starts[row]`
   * `starts`                   the vector expression `np.append([0], np.cumsum(lengths)[:-1])` (property and the
                                two fall-backs; all three must agree)
@@ -470,10 +472,14 @@ def translate(repo):
         reject(b[0], "expected the missing-arguments guard")
     fallback_starts(b[1])
     _fixed(b[2], "first_dimension, second_dimension = iis_ragged")
-    _fixed(b[3], "first_dimension = np.array(first_dimension)")
-    _fixed(b[4], "second_dimension = np.array(second_dimension)")
-    _fixed(b[5], "if first_dimension.size > 1 and second_dimension.size == 1:\n"
-                 "    second_dimension = np.array([second_dimension for n in first_dimension])")
+    # the index vectors enter as new arrays of platform integers (_index_array, pinned below: the model works over
+    # Z, an index dtype in which the arithmetic below could wrap never reaches it) ...
+    _fixed(b[3], "first_dimension = _index_array(first_dimension)")
+    _fixed(b[4], "second_dimension = _index_array(second_dimension)")
+    # ... and are paired by NumPy broadcasting; the copies are what the in-place `+=` of
+    # _handle_negative_indices writes to (np_broadcast_pairs of Base/RaBase.v)
+    _fixed(b[5], "first_dimension, second_dimension = [np.array(dimension) for dimension in "
+                 "np.broadcast_arrays(first_dimension, second_dimension)]")
     _fixed(b[6], "first_dimension, second_dimension = _handle_negative_indices(\n"
                  "    first_dimension, second_dimension, lengths=lengths, starts=starts)")
     s = b[7]
@@ -493,11 +499,25 @@ def translate(repo):
     flat = tr.expr(_subst(s.value, {"starts[first_dimension]": "row_start"}),
                    {"row_start": "Z", "second_dimension": "Z"}, "Z")[0]
     _fixed(b[9], "return (iis_flat,)")
+    out.append("Definition gen_c2_pairs (first_dimension second_dimension : list Z) : option (list (Z * Z)) :=\n"
+               "  np_broadcast_pairs first_dimension second_dimension.\n")
     out.append("Definition gen_c2_oob (row_len second_dimension : Z) : bool := %s.\n" % oob)
     out.append("Definition gen_c2_flat (row_start second_dimension : Z) : Z := %s.\n" % flat)
     out.append("Definition gen_conv2d (lengths starts : list Z) (r c : Z) : option Z :=\n"
                "  conv2d_skel gen_hn_row_neg gen_hn_row_wrap gen_hn_row_bad gen_hn_col_neg gen_hn_col_wrap gen_hn_col_bad\n"
                "    gen_c2_oob gen_c2_flat lengths starts r c.\n")
+
+    # ------------------------------------------------------------ _index_array (pinned text)
+    fn = find_func(tree, "_index_array", REL)
+    _args(fn, ["indices"])
+    b = strip_doc(fn.body)
+    expect = ["indices = np.array(indices)",
+              "if indices.dtype.kind in 'iu':\n    indices = indices.astype(int)",
+              "return indices"]
+    if len(b) != len(expect):
+        reject(fn, "_index_array: expected %d statements" % len(expect))
+    for st, text in zip(b, expect):
+        _fixed(st, text)
 
     # ------------------------------------------------------------ _convert_from_1d, where
     fn = find_func(tree, "_convert_from_1d", REL)
